@@ -55,6 +55,17 @@ def resolve_special(it, callee):
             else: r = it.call('<%s as std::cmp::PartialEq>::eq' % inner, [Ref(Box_(a.fields[0])), Ref(Box_(b.fields[0]))])
             return znot(r) if neg else r
         return ('model', f)
+    m = re.fullmatch(r'<\((.*)\) as std::cmp::PartialEq>::(eq|ne)', callee)
+    if m:
+        tys = [t.strip() for t in split_top(m.group(1), ',') if t.strip()]
+        def f(it, a, b, tys=tys, neg=(m.group(2) == 'ne')):
+            ra, rb = (root_ref(a) if isinstance(a.get(), Ref) else a), (root_ref(b) if isinstance(b.get(), Ref) else b)
+            r = True
+            for i, ty in enumerate(tys):
+                e = it.call('<%s as std::cmp::PartialEq>::eq' % ty, [Ref(ra.box, ra.path + (i,)), Ref(rb.box, rb.path + (i,))])
+                if not B(it, e): r = False; break
+            return (not r) if neg else r
+        return ('model', f)
     m = re.fullmatch(r'<std::boxed::Box<(.*)> as std::cmp::PartialEq>::eq', callee)
     if m:
         inner = m.group(1)
@@ -492,6 +503,11 @@ def m_contains_char(it, s, ch):
     for c in deref_all(s).chars:
         if B(it, c == ch): return True
     return False
+@model(r'core::str::<impl str>::contains::<(fn\(char\) -> bool \{.*\}|\{closure@.*\})>')
+def m_contains_pred(it, s, f):
+    for c in deref_all(s).chars:
+        if B(it, it.call_closure(f, c)): return True
+    return False
 def find_sub(it, hay, nee, start=0):
     n, m = len(hay), len(nee)
     for i in range(start, n - m + 1):
@@ -562,7 +578,7 @@ def m_trim(it, callee, s):
     if not callee.endswith('trim_start'):
         while cs and B(it, is_ws(cs[-1])): cs.pop()
     return Ref(Box_(SStr(cs)))
-@model(r'core::str::<impl str>::(replace|replacen)::<(&str|char|&std::string::String)>', True)
+@model(r'(?:core|std|alloc)::str::<impl str>::(replace|replacen)::<(&str|char|&std::string::String)>', True)
 def m_replace_str(it, callee, s, a, b, *n):
     a = deref_all(a); pat = a.chars if isinstance(a, SStr) else [a]
     parts = split_on(it, deref_all(s).chars, pat)
